@@ -3,7 +3,7 @@
 A *leg* is one invocation of what `infretisrun -i <input>` does (`setup_config` + `scheduler`), run to its
 end or stopped ("killed") after a given step.  A *scenario* is a list of ops executed in order:
   {"op": "prepare", "dir", "engine": "lattice"|"turtle", "cfg": {...}}   make a fresh run directory
-  {"op": "leg", "dir", "input", "set_steps", "policy", "kill_at", "snap", "leg"}
+  {"op": "leg", "dir", "input", "set_steps", "policy", "kill_at", "snap", "leg", "crash"}
   {"op": "copy", "src", "dst"}
 
 Only `infretis.scheduler.setup_runner` is replaced (monkeypatch inside the child that runs the leg):
@@ -98,6 +98,7 @@ class SyncRunner:
                         "locked0_left": len(st.locked0)})
         md_in = pickle.loads(pickle.dumps(md))
         out = self.task(md_in)
+        self.rec.write({"ev": "outcome", "idx": idx, "status": str(out.get("status")), "n_ens": len(ens)})
         return _Fut(pickle.loads(pickle.dumps(out)), idx)
 
     def stop(self):
@@ -114,6 +115,7 @@ class Futures:
         self.kill_at = kill_at
         self.snap = set(snap or [])
         self.rundir = rundir
+        self.last_completed = None
         if policy.startswith("rand:"):
             self.rng = random.Random(policy)
             self.pick = lambda n: self.rng.randrange(n)
@@ -140,6 +142,7 @@ class Futures:
         if not self.l:
             return None
         f = self.l.pop(self.pick(len(self.l)))
+        self.last_completed = f.idx
         self.rec.write({"ev": "complete", "idx": f.idx, "step": done + 1})
         return f
 
@@ -248,8 +251,35 @@ def run_leg(op):
                "recorded_cstep": None if toml_before is None else toml_before.get("cstep")})
 
     def fake_setup_runner(state):
-        return (SyncRunner(run_md, state, rec),
-                Futures(state, rec, op.get("policy", "fifo"), op.get("kill_at"), op.get("snap"), op["dir"]))
+        futs = Futures(state, rec, op.get("policy", "fifo"), op.get("kill_at"), op.get("snap"), op["dir"])
+        crash = op.get("crash")      # {"step": c, "where": "before_toml" | "torn" | "after_toml"}
+        if crash:
+            # `treat_output` appends the data rows (write_to_pathens) and then rewrites the restart file
+            # (write_toml): these are the two effect boundaries of a step on the files C06 compares
+            orig = state.write_toml
+
+            def write_toml():
+                at = int(state.cstep) == int(crash["step"]) and futs.last_completed is not None \
+                    and not getattr(write_toml, "done", False)
+                if at and crash["where"] in ("before_toml", "torn"):
+                    write_toml.done = True
+                    if crash["where"] == "torn":
+                        df = state.config["output"]["data_file"]
+                        size = os.path.getsize(df)
+                        with open(df, "rb+") as f:      # the last row loses its tail (and its newline)
+                            f.truncate(max(0, size - int(crash.get("cut", 7))))
+                    rec.write({"ev": "kill", "after_step": int(state.cstep) - 1, "inside_step": int(state.cstep),
+                               "where": crash["where"], "in_flight": [x.idx for x in futs.l] + [futs.last_completed]})
+                    raise StopLeg()
+                orig()
+                if at and crash["where"] == "after_toml":
+                    write_toml.done = True
+                    rec.write({"ev": "kill", "after_step": int(state.cstep), "where": "after_toml",
+                               "in_flight": [x.idx for x in futs.l]})
+                    raise StopLeg()
+
+            state.write_toml = write_toml
+        return (SyncRunner(run_md, state, rec), futs)
 
     sched.setup_runner = fake_setup_runner
     config = setup_config(op["input"])
@@ -257,7 +287,13 @@ def run_leg(op):
         return {"ok": False, "error": "setup_config returned None"}
     try:
         sched.scheduler(config)
-        rec.write({"ev": "leg-end", "how": "finished"})
+        fl = None
+        try:
+            with open("restart.toml", "rb") as f:
+                fl = tomli.load(f)["current"].get("locked", [])
+        except Exception:  # noqa: BLE001
+            pass
+        rec.write({"ev": "leg-end", "how": "finished", "final_locked": fl})
         return {"ok": True, "how": "finished"}
     except StopLeg:
         rec.write({"ev": "leg-end", "how": "killed"})
